@@ -92,7 +92,35 @@ pub fn vq_pos_eq(a: &Position, b: &Position) -> (r: bool)
 { unimplemented!() }
 """
 
+RENAME_CORPUS = [
+    {"what": "outer variable shadowed by a match payload, used after the match", "at": "let total", "delta": 4, "count": 3,
+     "src": "fun f(o: Option<Int>): Int {\n  let total = 100\n  let r = match o {\n    Some(total) => total + 1\n    None => total\n  }\n  r + total\n}\nprintln(string_repr(f(Some(5))))\nprintln(string_repr(f(None)))\n"},
+    {"what": "match payload that shadows an outer variable", "at": "Some(total)", "delta": 5, "count": 2,
+     "src": "fun f(o: Option<Int>): Int {\n  let total = 100\n  let r = match o {\n    Some(total) => total + 1\n    None => total\n  }\n  r + total\n}\nprintln(string_repr(f(Some(5))))\nprintln(string_repr(f(None)))\n"},
+    {"what": "parameter shadowed by a closure parameter", "at": "fun g(x", "delta": 6, "count": 3,
+     "src": "fun g(x: Int): Int {\n  let h = fun(x: Int) { x * 2 }\n  h(x) + x\n}\nprintln(string_repr(g(3)))\n"},
+    {"what": "closure parameter that shadows a parameter", "at": "fun(x", "delta": 4, "count": 2,
+     "src": "fun g(x: Int): Int {\n  let h = fun(x: Int) { x * 2 }\n  h(x) + x\n}\nprintln(string_repr(g(3)))\n"},
+    {"what": "variable shadowed by a for loop variable, used after the loop", "at": "let i", "delta": 4, "count": 2,
+     "src": "fun k(): Int {\n  let i = 50\n  let t = 0\n  for i in [1, 2] { t += i }\n  t + i\n}\nprintln(string_repr(k()))\n"},
+    {"what": "for loop variable that shadows an outer variable", "at": "for i", "delta": 4, "count": 2,
+     "src": "fun k(): Int {\n  let i = 50\n  let t = 0\n  for i in [1, 2] { t += i }\n  t + i\n}\nprintln(string_repr(k()))\n"},
+    {"what": "variable shadowed in a nested block, used after the block", "at": "let v", "delta": 4, "count": 2,
+     "src": "fun m(): Int {\n  let v = 1\n  if True { let v = 2  println(string_repr(v)) }\n  v\n}\nprintln(string_repr(m()))\n"},
+    {"what": "destructured match payload shadowing two outer variables", "at": "let a", "delta": 4, "count": 2,
+     "src": "fun d(o: Option<(Int, Int)>): Int {\n  let a = 3\n  let b = 4\n  let s = match o { Some((a, b)) => a + b  None => 0 }\n  s + a + b\n}\nprintln(string_repr(d(Some((10, 20)))))\n"},
+    {"what": "catch variable shadowing an outer variable", "at": "let e", "delta": 4, "count": 2,
+     "src": "fun t(): Int {\n  let e = 7\n  try { throw(\"x\") } catch (e) { 0 }\n  e\n}\nprintln(string_repr(t()))\n"},
+    {"what": "non-ASCII text before the occurrences", "at": "let n", "delta": 4, "count": 3,
+     "src": "fun u(): Int {\n  let s = \"\u00e9\U0001F600\"  let n = 1\n  println(s)  n + n\n}\nprintln(string_repr(u()))\n"},
+]
+BOUNDED = [
+    {"name": "rename_corpus", "kind": "rename-corpus", "props": ["C19"], "input": RENAME_CORPUS, "n_inputs": len(RENAME_CORPUS),
+     "bound": "%d listed programs with shadowing (match payloads, closure parameters, for variables, nested lets, catch variables): the rename rewrites the expected number of occurrences and the renamed program prints the same output" % len(RENAME_CORPUS),
+     "expect": {}},
+]
 WITNESSES = [
+    {"match": r"rename\.", "kind": "rename-corpus", "props": ["C19"], "input": RENAME_CORPUS, "expect": {}, "note": "renames under shadowing"},
     {"match": r"rename\.", "kind": "rename", "props": ["C19"],
      "input": "fun f(x: Int): Int {\n  let s = \"é\U0001F600\"  let y = x + 1\n  let g = fun(x: Int) { x * 2 }\n  y + g(x) + x\n}\n\nprintln(string_repr(f(3)))\n",
      "offset": 6, "new_name": "renamed_x",
